@@ -192,3 +192,41 @@ extern "C" void h_set_algebra(void)
 	vp_assert(arr.length() == A.length(), "array() has every member once");
 	vp_reach(5);
 }
+
+// HashMap past its growth threshold with keys whose hash has bits above bit 16: every key stays findable, removable, counted once
+extern "C" void h_hash_grow(void)
+{
+	int n = vp_param(0);
+	HashMap<int, int> m;
+	for (int i = 0; i < n; i++) m[i * 65537 + 3] = i + 1;
+	vp_assert(m.length() == n, "length() counts every inserted key once, also after the table has grown");
+	int j = vp_concretize(vp_range(0, (n - 1) / 16)) * 16 + vp_concretize(vp_range(0, 15));      // every key (two-level case split)
+	vp_assume(j < n);
+	int key = j * 65537 + 3;
+	vp_assert(m.has(key), "a key inserted before or during growth is found");
+	const HashMap<int, int>& cm = m;
+	vp_assert(cm.get(key, -1) == j + 1, "its value is the one stored");
+	m[key] = -5;
+	vp_assert(m.length() == n, "writing an existing key creates no duplicate");
+	m.remove(key);
+	vp_assert(m.length() == n - 1 && !m.has(key), "remove() removes exactly that key");
+	int cnt = 0; foreach2(int k, int v, m) { (void)v; vp_assert(k != key, "a removed key is not enumerated"); cnt++; }
+	vp_assert(cnt == n - 1, "enumeration visits every remaining key once");
+	vp_note(cnt);
+	vp_reach(6);
+}
+
+// Map converting constructor: the converted keys are again in ascending order, findable, without duplicates
+extern "C" void h_map_convert(void)
+{
+	Map<int, int> m;
+	int k[3];
+	for (int i = 0; i < 3; i++) { k[i] = vp_range(-3, 3); m[k[i]] = 10 + i; }
+	Map<unsigned, int> u(m);
+	vp_assert(u.length() == m.length(), "converting an int-keyed map to unsigned keys keeps the number of keys (distinct ints stay distinct)");
+	unsigned prev = 0; bool first = true;
+	foreach2(unsigned key, int v, u) { (void)v; vp_assert(first || key > prev, "enumeration of the converted map is in ascending key order"); prev = key; first = false; }
+	for (int i = 0; i < 3; i++) vp_assert(u.has((unsigned)k[i]) && u[(unsigned)k[i]] == m[k[i]], "every converted key is found with its value");
+	vp_note(u.length());
+	vp_reach(7);
+}
